@@ -30,7 +30,7 @@ class C05(vlib.HistoryProp):
     def assumptions(self):
         return ["injected integral millisecond clock (hook H1), constant during an Execute; wait literals 0,1,2,5,50 ms convert exactly",
                 "timed waits follow the due-time specification proved equal to the code-level timer in unit C06 (the scheduler is shared by model and specification)",
-                "a thread is a program of timed waits / pause+helper-resume followed by one final statement; values are opaque data of 9 kinds (NIL, int, float, string, NULL, listener, vector, array, const array) taken from fixed tables; parameters are observed through `println (typeof p) p` (no identity for listeners/arrays) and through `end local.p<j>` (full identity)",
+                "a thread is a program of timed waits / pause+helper-resume, at most one sub-thread started with `local.sr = thread s<i>`, and one final statement (possibly `end local.sr`); values are opaque data of 9 kinds (NIL, int, float, string, NULL, listener, vector, array, const array) taken from fixed tables; parameters are observed through `println (typeof p) p` (no identity for listeners/arrays) and through `end local.p<j>` (full identity)",
                 "the host never assigns a result cell to itself and only touches result cells of records it still owns",
                 "after ScriptMaster::Reset the host only reads values that do not refer to the engine's string dictionary (string results are of the String type)"]
 
@@ -53,13 +53,28 @@ class C05(vlib.HistoryProp):
         if which == "pause":
             return ["p%d" % w()], None
         if which == "kill":
+            if rng.random() < 0.4:
+                return ["w%d" % w()] * rng.choice([0, 1]), rng.choice(["S", "K1", "K2", "N"])
             return ["w%d" % w()] * rng.choice([0, 1]), rng.choice(["k%d", "q%d"]) % w()
         if which == "never":
             return ["w%d" % w()] * rng.choice([0, 1]), "h"
         steps = [rng.choice(["w%d", "p%d"]) % w() for _ in range(rng.choice([0, 1, 2, 3]))]
         return steps, None
 
-    def call(self, rng, nargs, np, which, kinds, lbl=1, kinds9=False):
+    def upper_level(self, rng):
+        """a thread that starts a sub-thread (`t`) and, mostly, ends with its possibly pending result (`L`)"""
+        steps = [rng.choice(["w%d", "p%d"]) % rng.choice(WAITS) for _ in range(rng.choice([0, 0, 1, 1, 2]))]
+        steps.insert(rng.randrange(len(steps) + 1), "t")
+        r = rng.random()
+        if r < 0.7:
+            final = "L"
+        elif r < 0.85:
+            final = rng.choice(["k%d", "q%d"]) % rng.choice(WAITS)
+        else:
+            final = rng.choice(["h", "x", "ei1", "es2", "S", "K1", "N"])
+        return ",".join(steps + [final])
+
+    def call(self, rng, nargs, np, which, kinds, lbl=1, kinds9=False, sublevels=0):
         args = [self.value(rng, kinds) for _ in range(nargs)]
         steps, final = self.sched(rng, which)
         if final is None:
@@ -70,7 +85,8 @@ class C05(vlib.HistoryProp):
                 final = "r%d" % rng.randrange(0, max(np, nargs) + 2)
             else:
                 final = rng.choice(["x", "o"])
-        return "C %d %d %s %s" % (lbl, np, ",".join(steps + [final]), ",".join(args) if args else "-")
+        levels = [self.upper_level(rng) for _ in range(sublevels)] + [",".join(steps + [final])]
+        return "C %d %d %s %s" % (lbl, np, "/".join(levels), ",".join(args) if args else "-")
 
     def frames(self, rng, n):
         ops = []
@@ -93,7 +109,8 @@ class C05(vlib.HistoryProp):
             if r < 0.30 or nrec == 0:
                 which = rng.choice(["sync", "waits", "waits", "pause", "pause", "kill", "never", "mixed", "mixed"])
                 lbl = 0 if rng.random() < 0.08 else 1
-                ops.append(self.call(rng, rng.randrange(maxlen + 1), rng.randrange(maxlen + 1), which, kinds, lbl, kinds9))
+                sub = rng.choice([0, 0, 0, 1, 1, 2]) if rng.random() < 0.6 else 0
+                ops.append(self.call(rng, rng.randrange(maxlen + 1), rng.randrange(maxlen + 1), which, kinds, lbl, kinds9, sub))
                 nrec += 1
             elif r < 0.40:
                 ops.append("Y %d" % rid()); nrec += 1
@@ -153,6 +170,43 @@ class C05(vlib.HistoryProp):
                 ops = ["C 1 1 w1,%s i1" % final, "C 1 0 w2,ev1 -"] + list(seqn) + ["T 1", "X", "Y 0", "T 1", "X", "X"]
                 cases.append(Case("o%d" % k, "", ops, "exhaustive-cellops-%d" % d))
                 k += 1
+        # a thread destroyed before its end (deleted while paused / waiting, inside the call, or by
+        # Reset) with 0, 1, 2, 3, 4 holders of its pending result, copies made before and after
+        for nh in range(5):
+            for mode in ["k1", "q1", "k0", "q0", "Zw", "Zh", "Zp",
+                         # destroyed while EXECUTING: deletes itself inside the call / after a wait / after a pause,
+                         # deleted by a thread it starts (depth 1, 2) inside the call / after a wait, by an endon
+                         "S", "w1,S", "p1,S", "K1", "w1,K1", "w1,K2", "K2", "w1,N", "N", "w1,t,K1/w3,ei2", "t,S/w2,es1"]:
+                for post in [[], ["Y 0"], ["V 0", "Y 0"], ["U 1 0"], ["S 0 1"], ["S 1 0", "D 0"]]:
+                    final = {"Zw": "w5,ei3", "Zh": "h", "Zp": "p5,ei3"}.get(mode, mode)
+                    ops = ["C 1 1 %s i1" % final, "C 1 0 w7,es2 -"]
+                    ops += ["D 0"] if nh == 0 else ["Y 0"] * (nh - 1) + (["V 0"] if nh >= 3 else [])
+                    ops += ["T 1", "X"] + (["Z"] if mode[0] == "Z" else [])
+                    ops += post + ["T 1", "X", "Y 1", "T 9", "X", "X"]
+                    cases.append(Case("k%d" % k, "", ops, "exhaustive-kill-%dholders" % nh))
+                    k += 1
+        # results that are pending results of sub-threads: every combination of a forwarding thread,
+        # a sub-thread (chain) and a pattern of host copies / destructions / Reset around the events
+        tops = ["t,L", "w1,t,L", "t,w1,L", "t,w3,L", "p1,t,L", "t,p3,L", "t,k2", "t,q2", "t,h", "w1,t,w1,L", "t,w5,L", "t,p0,L"]
+        subs = ["ei3", "w2,ei3", "p2,es2", "w2,x", "k1", "q1", "w2,k1", "h", "w0,ev1", "t,L/w4,ev1", "t,w1,L/w3,ei3",
+                "t,L/k2", "w2,t,L/ei1", "t,w4,L/w2,ef1", "t,k1/w3,ei2"]
+        pats = [[], ["Y 0"], None, ["D 0"], ["Y 0", "Y 0", "V 0"], ["Y 0", "D 0"], ["Y 0", "U 1 0"], "Z"]
+        for ti, top in enumerate(tops):
+            for si, sub in enumerate(subs):
+                for pi, pat in enumerate(pats):
+                    if tier == "quick" and (ti + si + pi) % 3:
+                        continue
+                    ops = ["C 1 1 %s/%s i1" % (top, sub), "C 1 0 w6,es1 -"]
+                    ops += pat if isinstance(pat, list) else []
+                    for fr in range(7):
+                        ops += ["T 1", "X"]
+                        if pat is None:
+                            ops.append("Y 0")                 # a copy after every event
+                        if pat == "Z" and fr == (ti + si) % 4:
+                            ops += ["Y 0", "Z", "Y 0"]
+                    ops += ["Y 0", "T 60", "X"]
+                    cases.append(Case("f%d" % k, "", ops, "exhaustive-forward"))
+                    k += 1
         if tier == "quick":
             walks = [(12, 3, False, False, 700), (25, 8, True, False, 500), (40, 8, True, True, 200)]
         else:
@@ -169,7 +223,16 @@ class C05(vlib.HistoryProp):
         return m, [], m == s
 
     def canon_impl(self, lines):
-        return [l[2:] for l in lines if l.startswith("m ")], [], [], None
+        m = [l[2:] for l in lines if l.startswith("m ")]
+        direct = []
+        for i, l in enumerate(m):
+            parts = l.split(" | ")
+            if len(parts) == 3 and parts[2].endswith("th=0"):
+                # independent of the model: no thread is alive, so no record may still be pending
+                for r in parts[1].split():
+                    if r.endswith(",p") or r.endswith("=p"):
+                        direct.append("observation %d: no thread is alive but %s is still pending" % (i, r))
+        return m, [], direct, None
 
     def nontrivial(self, case, compared):
         # some record showed a pending result and later the delivered value
@@ -198,7 +261,7 @@ def branch_coverage(cases):
     drv = vlib.ocaml_driver("C05")
     cov = {"calls": 0, "nolabel": 0, "sync_value": 0, "sync_no_value": 0, "pending_after_call": 0,
            "delivered_later": 0, "delivered_to_2plus_records_at_once": 0, "emptied_later": 0,
-           "pending_at_end_thread_gone": 0, "record_ops_on_pending": 0, "missing_args_nil": 0, "extra_args_ignored": 0,
+           "emptied_by_kill_or_reset": 0, "record_ops_on_pending": 0, "missing_args_nil": 0, "extra_args_ignored": 0,
            "max_args": 0, "max_params": 0, "resets": 0}
     for i in range(0, len(cases), 2000):
         chunk = cases[i:i + 2000]
@@ -241,6 +304,8 @@ def branch_coverage(cases):
                 elif w[0] == "Z":
                     cov["resets"] += 1
                 got = [k for k in recs if k in prev and prev[k][-1] == "p" and recs[k][-1] != "p"]
+                if w[0] == "Z" and got:
+                    cov["emptied_by_kill_or_reset"] += 1
                 if w[0] in ("X", "C") and got:
                     vals = [k for k in got if recs[k][-1] != "n"]
                     cov["delivered_later"] += 1 if vals else 0
@@ -248,17 +313,18 @@ def branch_coverage(cases):
                     if len(vals) >= 2:
                         cov["delivered_to_2plus_records_at_once"] += 1
                 prev = recs
-            if lines and " th=0" in lines[-1] and any(v[-1] == "p" for v in prev.values()):
-                cov["pending_at_end_thread_gone"] += 1
+
     return cov
 
 
 def check(res, tier, seed):
     res.cov["rule"] += ("C05: corpus; every argument list of length 0..3 over 6 value kinds x every parameter count 0..3 x 4 completion schedules "
                         "(sync, timed waits, pause+resume by a helper thread, killed) with copies/relocations of the pending record and a missing-label call; "
+                        "results that are pending results of sub-threads (`local.sr = thread s1` ... `end local.sr`): 12 forwarding threads x 15 sub-threads/chains x 8 patterns of host copies, destructions and Reset around every event; "
+                        "a thread destroyed before its end (deleted while parked in a pause/wait, Reset; destroyed while executing: self-delete inside the call / after a wait, deleted by a thread it starts at depth 1 and 2, by an endon) with 0..4 holders and copies made before/after; "
                         "every sequence of <= 3 (thorough: 4) record operations (copy, relocate, move, destroy, copy-/move-assign of result cells) on two pending calls; "
                         "seeded random histories (argument/parameter lists to length 8, 9 value kinds, all schedules, record operations, frames, Reset); "
-                        "non-trivial = a record showed `pending` and later the delivered value. ")
+                        "non-trivial = a record showed `pending` and later the delivered value; direct check on the implementation: no record is pending when no thread is alive. ")
     pst = vlib.history_check(res, HP, tier, seed)
     try:
         res.cov["c05_exercised"] = branch_coverage(HP.gen(tier, seed))
